@@ -1,7 +1,7 @@
 (* C10  Literal and constant values match the compiler on each platform.
    Statements only; every proof is `exact <lemma>`. *)
 From CV Require Import Base.Bytes Lit.Defs Lit.Spec Lit.Platform Lit.TokenValue Lit.Gen_Platforms Lit.PlatformProofs
-  Lit.Proofs Lit.IntTheorems Lit.CharTheorems Lit.CharExt Lit.ValueTheorems.
+  Lit.Proofs Lit.IntTheorems Lit.FloatTheorems Lit.CharTheorems Lit.CharExt Lit.ValueTheorems.
 Local Open Scope N_scope.
 
 (* SPEC-EQ: every integer literal of the grammar (any base, any suffix, any number of digits) whose
@@ -45,6 +45,15 @@ Theorem C10_classifiers_partition s b v : c_int_literal s b v ->
   (b = B8 -> is_oct s = false -> v = 0).
 Proof. exact (classify_literal s b v). Qed.
 Print Assumptions C10_classifiers_partition.
+
+(* decimal floating constants (ISO C 6.4.4.2: fractional constant / digits with exponent, optional
+   exponent, suffix f F l L; any number of digits): accepted by isDecimalFloat and isFloat, rejected by
+   every integer recogniser - so valueFlowSetConstantValue and setValueTypeInTokenList send them to the
+   floating branch.  Their VALUE (toDoubleNumber) is not modelled *)
+Theorem C10_decimal_float_classified s : c_dec_float s ->
+  is_float s = true /\ is_decimal_float s = true /\ is_int s = false.
+Proof. exact (dec_float_classified s). Qed.
+Print Assumptions C10_decimal_float_classified.
 
 (* narrow character literals made of source characters and simple escapes, any number of them:
    one character -> its value as (signed) char; several -> packed base 256 into an int *)
@@ -208,5 +217,14 @@ Proof.
 Qed.
 Example C10_ex_chars_ext_value : char_literal_to_ll [39;92;51;55;55;92;120;52;49;39] = Some 65345%Z.   (* 0xff41 *)
 Proof. vm_compute. reflexivity. Qed.
+Example C10_ex_float : c_dec_float [49;46;53;101;45;51;102].           (* 1.5e-3f *)
+Proof.
+  apply (F_frac [49] [53] [101;45;51] [102]).
+  - left. apply (DD_one 49 1). apply (DC_dec 10 1); lia.
+  - apply (DD_one 53 5). apply (DC_dec 10 5); lia.
+  - apply OE_some. apply (EX_sign 101 45 [51]); [left; reflexivity | right; reflexivity |].
+    apply (DD_one 51 3). apply (DC_dec 10 3); lia.
+  - constructor.
+Qed.
 Example C10_ex_platform : exists p, In p Gen_platforms /\ platform_sane p = true.
 Proof. exists plat_unix64. split; [vm_compute; tauto | vm_compute; reflexivity]. Qed.
